@@ -278,14 +278,14 @@ func main() {
 		if on("bracket") {
 			n := 1500
 			if full {
-				n = 30000
+				n = 15000
 			}
 			streamBracket(emit, lib.NewRng(*seed^0xb7ac), n, full)
 		}
 		if on("deep") {
 			n := 6000
 			if full {
-				n = 60000
+				n = 30000
 			}
 			streamDeep(emit, lib.NewRng(*seed^0xdee9), n)
 		}
